@@ -1,5 +1,14 @@
 package monitors
 
-import "verif/synth"
+import (
+	"verif/core"
+	"verif/synth"
+)
 
-func sqlProgs(seed int64, n int) []*synth.Program { return nil }
+func sqlProgs(seed int64, n int) []*synth.Program {
+	var out []*synth.Program
+	for i := 0; i < n; i++ {
+		out = append(out, synth.NewSQLProg(i, core.Rand(seed, "sqlprog", i)))
+	}
+	return out
+}
